@@ -2,10 +2,13 @@
    Statement: validating from the root with leafref checking enabled reports an error exactly when
    some leafref leaf holds a value not found in the node set its path selects, with predicates
    evaluated against the current data; with IgnoreMissingData set, no leafref error is reported.
-   Model: Tree/Leafref.v (uncompressed structs; relative "../"^n a/b and absolute /a/b paths, no
-   predicates: the corpus has none; ytypes.GetNode modelled by its result).  This file only
-   restates results of Tree/LeafrefProofs.v, plus witnesses. *)
-From Ygot Require Import Tree.Tree Tree.TreeOps Tree.Validate Tree.Defaults Tree.Leafref Tree.LeafrefProofs.
+   Models: Tree/Leafref.v (uncompressed structs; relative "../"^n a/b and absolute /a/b paths, no
+   predicates; ytypes.GetNode modelled by its result) and its generalisation Tree/LeafrefPred.v
+   (key predicates [k = current()/../x] and [k = "literal"]: leafRefToGNMIPath's step one, GetNode's
+   partial key match).  This file only restates results of Tree/LeafrefProofs.v and
+   Tree/LeafrefPredProofs.v, plus witnesses. *)
+From Ygot Require Import Tree.Tree Tree.Codec Tree.TreeOps Tree.KeyCodec Tree.Validate Tree.Defaults Tree.Leafref Tree.LeafrefProofs
+  Tree.LeafrefPred Tree.LeafrefPredProofs.
 
 (* the upward walk over the NodeInfo chain followed by GetNode selects what the path denotes *)
 Theorem c30_two_step_is_select : forall sfs0 fs0 loc lp,
@@ -91,3 +94,165 @@ Example c30_refuted_unkeyed :
   validate_leafrefs false tab sfs fs LrNil = [ELrNoParent] /\
   satisfied sfs fs [StU [85] 0] lp (VStr [97]) = true.
 Proof. split; vm_compute; reflexivity. Qed.
+
+(* ====================== paths with key predicates (Tree/LeafrefPred.v) ====================== *)
+
+(* on a side table without predicates the generalised validation is the one above *)
+Theorem c30p_plain_paths : forall env ko lrfix sfs0 fs0 tab mode,
+  map snd (validate_leafrefs_p env ko lrfix (embed_tab tab) sfs0 fs0 mode) =
+  map embed_cls (validate_leafrefs lrfix tab sfs0 fs0 mode).
+Proof. exact validate_leafrefs_p_embed. Qed.
+Print Assumptions c30p_plain_paths.
+
+(* step one: on a regular path every predicate is replaced by the key value computed from its operand *)
+Theorem c30p_step_one : forall env ko sfs0 fs0 loc els,
+  forallb (elem_regular env ko sfs0 fs0 loc) els = true ->
+  resolve env ko sfs0 fs0 loc els = S1Ok (map (erase env ko sfs0 fs0 loc) els).
+Proof. exact resolve_regular. Qed.
+Print Assumptions c30p_step_one.
+
+(* step two: the upward walk reaches XPath's ancestor, and GetNode with partial key match on the
+   path of step one returns nodes whose values are the values the path with its predicates denotes *)
+Theorem c30p_upward_walk : forall sfs0 fs0 loc abs up,
+  loc_keyed loc = true -> go_ctx sfs0 fs0 loc abs up = ctx sfs0 fs0 loc abs up.
+Proof. exact go_ctx_ctx. Qed.
+Print Assumptions c30p_upward_walk.
+
+Theorem c30p_step_two_is_select : forall env ko sfs0 fs0 loc els sfs fs,
+  forallb (elem_regular env ko sfs0 fs0 loc) els = true -> descent_ok env ko sfs0 fs0 loc els sfs fs = true ->
+  exists ns, selp env ko (map (erase env ko sfs0 fs0 loc) els) sfs fs = Some ns /\
+             flat_map lnode_vals ns = seld env ko sfs0 fs0 loc els sfs fs.
+Proof. exact selp_seld. Qed.
+Print Assumptions c30p_step_two_is_select.
+
+(* Validate without LeafrefOptions (with &LeafrefOptions{IgnoreMissingData: false} as well once
+   leafrefErrOrLog is repaired): no error iff every set leafref leaf holds one of the values its path,
+   predicates included, selects.  Guards (leaf_regular, not_bin): no leafref leaf inside an unkeyed
+   list, no binary leafref value, at most one predicate per path element, the key value step one
+   substitutes is the string of the operand's only value (or the operand selects no value) and is
+   not "*", the predicate names a key of the list it addresses, and when the operand selects no value
+   no entry of that list carries the substituted key (""); the entries of a single-key list print
+   differently.  Each guard is necessary: see the c30p_refuted_* witnesses below. *)
+Theorem c30p_iff : forall env ko lrfix tab sfs0 fs0 mode,
+  reports lrfix mode = true ->
+  (forall x, In x (all_lrp_leaves tab fs0) ->
+     leaf_regular env ko sfs0 fs0 (ll_loc x) (ll_path x) = true /\ not_bin (ll_val x) = true) ->
+  (validate_leafrefs_p env ko lrfix tab sfs0 fs0 mode = [] <->
+   forall x, In x (all_lrp_leaves tab fs0) -> satisfied_p env ko sfs0 fs0 (ll_loc x) (ll_path x) (ll_val x) = true).
+Proof. exact validate_leafrefs_p_iff. Qed.
+Print Assumptions c30p_iff.
+
+(* one leaf: an error for it iff its value is not among the selected values *)
+Theorem c30p_leaf_iff : forall env ko lrfix sfs0 fs0 mode loc lp v,
+  reports lrfix mode = true -> leaf_regular env ko sfs0 fs0 loc lp = true -> not_bin v = true ->
+  (check_leaf_p env ko lrfix sfs0 fs0 mode loc lp v = [] <-> satisfied_p env ko sfs0 fs0 loc lp v = true).
+Proof. exact check_leaf_p_iff. Qed.
+Print Assumptions c30p_leaf_iff.
+
+Theorem c30p_ignore_missing : forall env ko lrfix tab sfs0 fs0,
+  validate_leafrefs_p env ko lrfix tab sfs0 fs0 LrIgnore = [].
+Proof. exact validate_leafrefs_p_ignore. Qed.
+Print Assumptions c30p_ignore_missing.
+
+(* ---------- witnesses ---------- *)
+
+Definition S_srv : str := [115;114;118].      Definition S_name : str := [110;97;109;101].
+Definition S_addr : str := [97;100;100;114].  Definition S_lnk : str := [108;110;107].
+Definition S_k1 : str := [107;49].            Definition S_k2 : str := [107;50].
+Definition S_d : str := [100].                Definition S_cli : str := [99;108;105].
+Definition S_sn : str := [115;110].           Definition S_sa : str := [115;97].
+Definition S_sp : str := [115;112].           Definition S_sm : str := [115;109].
+Definition S_s2 : str := [115;50].            Definition S_v1 : str := [118;49].
+Definition S_v2 : str := [118;50].
+Definition sleaf : schema := SLeaf (YStr [] 0) [].
+Definition sref : schema := SLeaf (YLeafref (YStr [] 0)) [].
+(* root { srv: list keyed name { name; addr };  lnk: list keyed k1 k2 { k1; k2; d };
+          cli { sn; v1; v2: strings;
+                sa: leafref ../../srv[name=current()/../sn]/addr;
+                sp: the same with a module prefix in the operand;
+                sm: leafref ../../srv[name=current()/../../srv/name]/addr;
+                s2: leafref ../../lnk[k1=current()/../v1][k2=current()/../v2]/d } } *)
+Definition p_sfs : list (finfo * schema) :=
+  [(fld S_srv, SList false [S_name] 0 0 [(fld S_name, sleaf); (fld S_addr, sleaf)]);
+   (fld S_lnk, SList false [S_k1; S_k2] 0 0 [(fld S_k1, sleaf); (fld S_k2, sleaf); (fld S_d, sleaf)]);
+   (fld S_cli, SCont [(fld S_sn, sleaf); (fld S_v1, sleaf); (fld S_v2, sleaf);
+                      (fld S_sa, sref); (fld S_sp, sref); (fld S_sm, sref); (fld S_s2, sref)])].
+Definition srv_path (op : lroperand) : lrppath :=
+  {| lp_abs := false; lp_up := 2; lp_down := [{| le_name := S_srv; le_preds := [(S_name, op)] |}; nopred S_addr] |}.
+Definition p_sa : lrppath := srv_path (OpPath false 1 [S_sn]).
+Definition p_sp : lrppath := srv_path (OpPath true 1 [S_sn]).
+Definition p_sm : lrppath := srv_path (OpPath false 2 [S_srv; S_name]).
+Definition p_s2 : lrppath :=
+  {| lp_abs := false; lp_up := 2;
+     lp_down := [{| le_name := S_lnk; le_preds := [(S_k1, OpPath false 1 [S_v1]); (S_k2, OpPath false 1 [S_v2])] |}; nopred S_d] |}.
+Definition p_tab : lrptab :=
+  [([S_cli; S_sa], p_sa); ([S_cli; S_sp], p_sp); ([S_cli; S_sm], p_sm); ([S_cli; S_s2], p_s2)].
+Definition p_ko : key_oracle := mk_key_oracle [] [] true.
+Definition srv (name addr : str) : list scalar * tree :=
+  ([VStr name], TCont [(S_name, TLeaf (VStr name)); (S_addr, TLeaf (VStr addr))]).
+Definition two_srv : str * tree := (S_srv, TList [srv [97] [120]; srv [98] [121]]).     (* a -> x, b -> y *)
+Definition cli (fs : list (str * tree)) : str * tree := (S_cli, TCont fs).
+Definition p_validate (fs : list (str * tree)) : list lperr := validate_leafrefs_p [] p_ko true p_tab p_sfs fs LrNil.
+Definition p_regular (fs : list (str * tree)) : bool :=
+  forallb (fun x => leaf_regular [] p_ko p_sfs fs (ll_loc x) (ll_path x) && not_bin (ll_val x)) (all_lrp_leaves p_tab fs).
+Definition p_satisfied (fs : list (str * tree)) : bool :=
+  forallb (fun x => satisfied_p [] p_ko p_sfs fs (ll_loc x) (ll_path x) (ll_val x)) (all_lrp_leaves p_tab fs).
+
+(* the value under the addressed key: accepted; under the other key only, or with the operand leaf
+   unset: reported (all three inside the guards of c30p_iff) *)
+Example c30p_example :
+  let ok := [two_srv; cli [(S_sn, TLeaf (VStr [97])); (S_sa, TLeaf (VStr [120]))]] in
+  let other := [two_srv; cli [(S_sn, TLeaf (VStr [97])); (S_sa, TLeaf (VStr [121]))]] in
+  let unset := [two_srv; cli [(S_sa, TLeaf (VStr [121]))]] in
+  (p_validate ok = [] /\ p_regular ok = true /\ p_satisfied ok = true /\ length (all_lrp_leaves p_tab ok) = 1%nat) /\
+  (p_validate other = [(S_sa, PDangling)] /\ p_regular other = true /\ p_satisfied other = false) /\
+  (p_validate unset = [(S_sa, PDangling)] /\ p_regular unset = true /\ p_satisfied unset = false) /\
+  validate_leafrefs_p [] p_ko true p_tab p_sfs other LrIgnore = [].
+Proof. repeat split; vm_compute; reflexivity. Qed.
+
+(* the statement without guards *)
+Definition c30p_full : Prop := forall env ko tab sfs0 fs0,
+  validate_leafrefs_p env ko true tab sfs0 fs0 LrNil = [] <->
+  forall x, In x (all_lrp_leaves tab fs0) -> satisfied_p env ko sfs0 fs0 (ll_loc x) (ll_path x) (ll_val x) = true.
+
+(* operand leaf unset: the key "" is substituted; an entry whose key IS the empty string matches, and
+   the value y, which no entry addressed by the (empty) operand holds, is accepted *)
+Definition w_empty_key : list (str * tree) :=
+  [(S_srv, TList [srv [] [121]; srv [97] [120]]); cli [(S_sa, TLeaf (VStr [121]))]].
+Theorem c30p_refuted_empty_key : ~ c30p_full.
+Proof.
+  intros H. destruct (H [] p_ko p_tab p_sfs w_empty_key) as [H1 _].
+  assert (E : validate_leafrefs_p [] p_ko true p_tab p_sfs w_empty_key LrNil = []) by (vm_compute; reflexivity).
+  specialize (H1 E).
+  assert (Hall : p_satisfied w_empty_key = true) by (apply forallb_forall; exact H1).
+  vm_compute in Hall. discriminate Hall.
+Qed.
+Print Assumptions c30p_refuted_empty_key.
+
+(* operand value "*": GetNode takes it as a wildcard, every entry matches *)
+Example c30p_refuted_star :
+  let fs := [two_srv; cli [(S_sn, TLeaf (VStr [42])); (S_sa, TLeaf (VStr [121]))]] in
+  p_validate fs = [] /\ p_satisfied fs = false /\ p_regular fs = false.
+Proof. repeat split; vm_compute; reflexivity. Qed.
+
+(* two predicates on one element (both keys of a two-key list): isKeyValue rejects the element as
+   malformed, a satisfied reference is an error in every mode but IgnoreMissingData *)
+Example c30p_refuted_two_predicates :
+  let fs := [(S_lnk, TList [([VStr [112]; VStr [113]], TCont [(S_k1, TLeaf (VStr [112])); (S_k2, TLeaf (VStr [113])); (S_d, TLeaf (VStr [120]))])]);
+             cli [(S_v1, TLeaf (VStr [112])); (S_v2, TLeaf (VStr [113])); (S_s2, TLeaf (VStr [120]))]] in
+  p_validate fs = [(S_s2, PMalformed)] /\ p_satisfied fs = true /\
+  validate_leafrefs_p [] p_ko true p_tab p_sfs fs LrNonNil = [(S_s2, PMalformed)].
+Proof. repeat split; vm_compute; reflexivity. Qed.
+
+(* a module prefix in the operand: StripModulePrefix mangles the operand path, the key is "", a
+   satisfied reference is reported *)
+Example c30p_refuted_prefixed_operand :
+  let fs := [two_srv; cli [(S_sn, TLeaf (VStr [97])); (S_sp, TLeaf (VStr [120]))]] in
+  p_validate fs = [(S_sp, PDangling)] /\ p_satisfied fs = true.
+Proof. repeat split; vm_compute; reflexivity. Qed.
+
+(* an operand that selects two nodes is an error, although XPath's "=" is existential *)
+Example c30p_refuted_operand_node_set :
+  let fs := [two_srv; cli [(S_sm, TLeaf (VStr [120]))]] in
+  p_validate fs = [(S_sm, POperandMulti)] /\ p_satisfied fs = true.
+Proof. repeat split; vm_compute; reflexivity. Qed.
